@@ -15,7 +15,9 @@ TOL = {"try_as_spdc": ("rel", 1e-9)}
 DEFAULT_TOL = ("exact",)
 RULE = ("family config[malformed]: valid descriptors with 1–3 boundary/invalid edits out of 16 kinds (both/no signal angle, auto θ with poling, "
         "λs ≤ λp inside the window, short crystal with auto period, angles ±400°, θ_crystal = 0 with 1e-9…0.1° non-collinear signal, "
-        "zero/negative length, waist, bandwidth, power, odd periods, temperatures, deff), plus the valid stream and short-crystal auto-period cases")
+        "zero/negative length, waist, bandwidth, power, odd periods, temperatures, deff), plus the valid stream and short-crystal auto-period cases; "
+        "every auto field (crystal angle, idler, waist positions, poling period) in 12 spellings the deserialiser accepts (any JSON string), "
+        "in each of the four listed error rules and in valid configurations, through JSON and through AutoCalcParam::Auto(String) in Rust")
 RESIDUAL = "finiteness of spectrum / rate / HOM values on constructed setups is observed on a 3×3 in-window grid, not proved"
 
 
